@@ -282,7 +282,19 @@ def series_feed_queries(ctx, chk, rule):
             ordered = bool(sel.order_by) and sel.order_by[0][0][0] == "col" and sel.order_by[0][0][2].endswith("epoch") and sel.order_by[0][1] == "ASC"
             ranged = [pr for pr in preds if pr[0] == "bin" and pr[1] in (">=", "<=", ">", "<") and pr[2][0] == "col" and pr[3][0] == "col"
                       and ({alias.get(pr[2][1], pr[2][1]), alias.get(pr[3][1], pr[3][1])} & cte_names)]
-            if not joined and ranged:
+            closing = []
+            for pr in ranged:
+                for side in (pr[2], pr[3]):
+                    if alias.get(side[1], side[1]) not in cte_names and side[2] == "thru_epoch":
+                        closing.append((pr, side))
+            if not joined and closing:
+                from ..sqlmodel import expr_str as _es
+                chk.ob(rule, False, where_of(f, s.call), "the rows of the data interval are selected by `%s`: the closing epoch of a step (its start + one step) is bounded by an instant of the record" % _es(closing[0][0])[:90],
+                       "the samples of a record are the instants labelled with its data interval: selected by the instant itself (from_epoch / epoch), by equality with the labelled grid times or by bounds on that same column",
+                       key="%s|series-range-on-closing-epoch" % f.qualname, local=True,
+                       why="the step that starts at the last instant of the record closes one step later, so it fails the bound: the last sample of every gap-free record is left out, and a recession (or storm) that reaches it is recorded one sample short or not at all")
+                continue
+            elif not joined and ranged:
                 chk.indeterminate(rule, where_of(f, s.call), "the rows of the data interval are selected by a range against %s (%s), not by equality of the instant with the labelled grid times: whether the bounds keep exactly the interval's rows is not decided"
                                   % (sorted(cte_names), "; ".join(expr_str(pr)[:50] for pr in ranged[:2])))
                 continue
